@@ -251,10 +251,12 @@ func (cpu *CPU) processInterrupt() bool {
 	case 2:
 		// Interrupt with IM 2
 		if len(cpu.Interrupt.Data) > 0 {
+			// take the vector first: a Memory callback may replace cpu.Interrupt during the push.
+			vec := cpu.Interrupt.Data[0]
 			cpu.SP -= 2
 			cpu.writeU16(cpu.SP, cpu.PC)
 			// The LSB of interruption vector is ignored in IM 2
-			cpu.PC = cpu.readU16(toU16(cpu.Interrupt.Data[0]&0xfe, cpu.IR.Hi))
+			cpu.PC = cpu.readU16(toU16(vec&0xfe, cpu.IR.Hi))
 			cpu.IFF1 = false
 			cpu.IFF2 = false
 		}
